@@ -352,6 +352,20 @@ def _r5(chk: Check, R5: str, rootq: str) -> None:
                     changed = True
         for mn in proto:
             protocol_loads.update(x for x in ast.walk(vci.methods[mn]) if isinstance(x, ast.Attribute) and isinstance(x.ctx, ast.Load))
+        # methods / properties of the state class that only the charge function uses are part of the charge function
+        if charge_q.startswith(vm + '.'):
+            charge_name = charge_q[len(vm) + 1:].split('.')[0]
+            for mn, mnode in vci.methods.items():
+                if mn == charge_name or mn in proto or mn.startswith('__'):
+                    continue
+                users = set()
+                for q2, fi2 in F.functions.items():
+                    if '.ply' in fi2.module.name or q2 == vm + '.' + mn:
+                        continue
+                    if any(isinstance(x, ast.Attribute) and x.attr == mn for x in ast.walk(fi2.node)):
+                        users.add(q2)
+                if users and users <= {charge_q}:
+                    root_nodes.update(ast.walk(mnode))
         init = vci.methods.get('__init__')
         if init is not None and init.args.args:
             sp = init.args.args[0].arg
